@@ -12,6 +12,8 @@ import CCVerif.Lemmas.SynthCorrectFrag
 import CCVerif.Lemmas.SynthCorrectHomFrag
 import CCVerif.Lemmas.SynthCorrectCompose
 import CCVerif.Lemmas.SynthCorrectRank
+import CCVerif.Lemmas.CheckerHomCompose
+import CCVerif.Lemmas.CheckerHomAnalysis
 /-!
 # C12 — synthesis, merge and equation yield a consistent schema and exact translations
 
@@ -2592,5 +2594,418 @@ example : FullyCorrect fragA (fragView.store resAC) := by
       · exact b1 ▸ (by decide)
       · exact b2 ▸ (by decide)
       · exact b1 ▸ (by decide)
+
+end CCVerif.SynthCorrect
+
+/-! ## BEGIN relativised (HomomorphicOn) — prover-C12h/homgen -/
+/-! The theorems of the sixth and seventh part for an analysis that is stable under ADMISSIBLE name
+substitutions on GOOD definitions only (`SchemaGen.HomomorphicOn`, Lemmas/CheckerHomGen.lean: `Adm` on the
+substitution, `GoodD` on definitions; the real type checker is such an analysis, not an unconditional
+`Homomorphic` one). Extra hypotheses: the renaming that is substituted is admissible, the definitions of
+the schema that is quotiented are good; the view commutes with admissible substitutions on good
+definitions (`View.CompatibleHomOn`). Lemma level: Lemmas/CheckerHomCompose.lean. -/
+namespace CCVerif.SynthCorrect
+open CCVerif.Translation CCVerif.Dedup CCVerif.Merge CCVerif.Equate CCVerif.Synth
+open CCVerif.SchemaGen (Analysis Lawful Equivariance ContentOnly entryOf FullyCorrect fragA
+  fragEquivariance fragA_lawful)
+
+variable {D I : Type} {A : Analysis D I}
+
+/-- **dedup_correct_on**: `dedup_correct` for a `HomomorphicOn` analysis — the renaming `finalAlias` of
+the duplicate removal is admissible and the definitions of the schema are good. -/
+theorem dedup_correct_on (hA : Lawful A) (hC : ContentOnly A) (H : SchemaGen.HomomorphicOn A) (V : View D)
+    (hV : V.CompatibleHomOn H) {l r : Schema} {tr : Tr} (hw : WF l) (h : dedup l = some (r, tr))
+    (hadm : H.Adm (finalAlias l r tr)) (hgood : ∀ c ∈ l, H.GoodD (V.read c.definition))
+    (hfc : FullyCorrect A (V.store l)) :
+    (∀ c ∈ l, entryOf A (V.store r) (image tr c.uid) =
+      H.homI (finalAlias l r tr) (entryOf A (V.store l) c.uid)) ∧
+    FullyCorrect A (V.store r) :=
+  stage_correct_on hA hC V H hV hadm hgood hw.1 hfc (dedup_stage hw h).1 (fun _ he => by cases he)
+    (fun _ he => by cases he)
+    (stage_acyclic_nokeys_on hA V H hV hadm hgood hw.1 hw.2 hfc (dedup_stage hw h).1)
+
+/-- non-vacuity of `dedup_correct_on`: the fragment (`fragHom.toOn`) on the cascade `dupL` -/
+example : FullyCorrect fragA (fragView.store dupR.1) ∧
+    entryOf fragA (fragView.store dupR.1) (image dupR.2 5) =
+      fragHom.toOn.homI (finalAlias dupL dupR.1 dupR.2) (entryOf fragA (fragView.store dupL) 5) :=
+  have h := dedup_correct_on fragA_lawful fragA_contentOnly fragHom.toOn fragView
+    fragView_compatibleHom.toOn (l := dupL) (by unfold WF; decide) (by decide : dedup dupL = some dupR)
+    (fragHom.toOn_adm _) (fun c _ => fragHom.toOn_good _) (by decide)
+  ⟨h.2, h.1 dupL[4] (by decide)⟩
+
+/-- **equate_correct_on**: `equate_correct` for a `HomomorphicOn` analysis — the definitions of the
+schema are good, and the conclusion is for every renaming of `equate_exact` that is admissible. -/
+theorem equate_correct_on (hA : Lawful A) (hC : ContentOnly A) (H : SchemaGen.HomomorphicOn A) (V : View D)
+    (hV : V.CompatibleHomOn H) {semOk : Bool} {l r : Schema} {eqs : List Entry} {tr : Tr}
+    (hw : WF l) (hk : (tkeys eqs).Nodup) (h : equate semOk l eqs = some (r, tr))
+    (hgood : ∀ c ∈ l, H.GoodD (V.read c.definition)) (hfc : FullyCorrect A (V.store l)) :
+    ∃ Q, StageExact l r tr eqs Q ∧ ∀ Q', StageExact l r tr eqs Q' → H.Adm Q' →
+      LikeWithLikeOn V A H l tr Q' → AcyclicSchema V A r →
+      (∀ c ∈ l, entryOf A (V.store r) (image tr c.uid) = H.homI Q' (entryOf A (V.store l) c.uid)) ∧
+      FullyCorrect A (V.store r) := by
+  obtain ⟨Q, hQ⟩ := equate_exact hw hk h
+  refine ⟨Q, hQ, fun Q' hQ' hadm hlike hac => ?_⟩
+  have hq := quotientOfOn_view V H hV hadm hgood hQ' hlike hac
+  have hn : (SchemaGen.uids (V.store l)).Nodup := by rw [uids_store]; exact hw.1
+  exact ⟨fun c hc => SchemaGen.quotient_entries_on hA hC hn hfc hq (V.cst c) (List.mem_map.2 ⟨c, hc, rfl⟩),
+    SchemaGen.quotient_fully_correct_on hA hC hn hfc hq⟩
+
+/-- non-vacuity of `equate_correct_on`: the fragment on `eqL`, `X1 = X2`, renaming `eqQ` -/
+example : FullyCorrect fragA (fragView.store eqR.1) := by
+  obtain ⟨_, _, hall⟩ := equate_correct_on fragA_lawful fragA_contentOnly fragHom.toOn fragView
+    fragView_compatibleHom.toOn (semOk := true) (l := eqL) (r := eqR.1) (tr := eqR.2)
+    (eqs := [{ key := 1, value := 2 }]) (by unfold WF; decide) (by decide) (by decide)
+    (fun c _ => fragHom.toOn_good _) (by decide)
+  exact (hall eqQ eqQ_stage (fragHom.toOn_adm _) (by unfold LikeWithLikeOn; decide)
+    ⟨fun u => u, by decide⟩).2
+
+/-- `synth_acyclic_aux` for a `HomomorphicOn` analysis -/
+private theorem synth_acyclic_aux_on (hA : Lawful A) (hC : ContentOnly A) (Q : Equivariance A)
+    (H : SchemaGen.HomomorphicOn A) (V : View D) (hV : V.Compatible A Q) (hVH : V.CompatibleHomOn H)
+    {g : Names} {freshs : List Nat} {op1 op2 m res : Schema} {eqs tq : List Entry} {trM trE tr2 : Tr}
+    {R m1 : String → String}
+    (hadm : H.Adm R) (hgood : ∀ c ∈ m, H.GoodD (V.read c.definition))
+    (hw1 : WF op1) (hw2 : WF op2) (hm : mergeWith g freshs op1 op2 = some (m, trM))
+    (hR : StageExact m res trE tq R) (hm1 : IsMergeRenaming op2 m trM m1)
+    (h1 : ∀ c ∈ op1, c ∈ m)
+    (h2 : ∀ c2 ∈ op2, ∃ s' ∈ m, lookup trM c2.uid = some s'.uid ∧ s'.uid ∉ uids op1 ∧
+        s'.alias ∉ aliases op1 ∧ Renamed m1 c2 s' ∧ lookup tr2 c2.uid = some (image trE s'.uid))
+    (hall : ∀ e0 ∈ eqs, e0.key ∈ uids op1 ∧ e0.value ∈ uids op2)
+    (hentry : ∀ e ∈ tq, ∃ e0 ∈ eqs, e = { e0 with value := image trM e0.value } ∨
+        e = swapped { e0 with value := image trM e0.value })
+    (hpresent : ∀ e0 ∈ eqs, (needsSwap m { e0 with value := image trM e0.value } = false ∧
+          { e0 with value := image trM e0.value } ∈ tq) ∨
+        (needsSwap m { e0 with value := image trM e0.value } = true ∧
+          swapped { e0 with value := image trM e0.value } ∈ tq))
+    (hvk : ∀ e ∈ tq, e.value ∉ tkeys tq)
+    (hc1 : FullyCorrect A (V.store op1)) (hc2 : FullyCorrect A (V.store op2))
+    (r1 : Q.Ren) (hr1 : ActsLike V Q r1 m1 op2)
+    (hns : ∀ e0 ∈ eqs, ∀ k ∈ op1, ∀ v ∈ op2, k.uid = e0.key → v.uid = e0.value → swapNeeded k v = false) :
+    AcyclicSchema V A res := by
+  have hcons := merge_consistent hw1 hw2 hm
+  have hcap : NoCapture V A op1 op2 m := noCapture_of_correct_on hA H V m hw1.1 hw2.1 hc1 hc2
+  have hmc := merge_correct hA hC Q V hV hw1 hw2 hm hm1 r1 hr1 hcap hc1 hc2
+  have hM := merge_mergeOf Q V hV hw1 hw2 hm hm1 r1 hr1 hcap
+  have hnm : (SchemaGen.uids (V.store m)).Nodup := by rw [uids_store]; exact hcons.1.1
+  -- every entry of the translated table: key in operand 1, value a copy
+  have hshape : ∀ e ∈ tq, e.key ∈ uids op1 ∧ e.value ∈ uids m ∧ e.value ∉ uids op1 := by
+    intro e he
+    rcases hentry e he with ⟨e0, he0, hE⟩
+    rcases List.mem_map.1 (hall e0 he0).1 with ⟨k, hk1, hku⟩
+    rcases List.mem_map.1 (hall e0 he0).2 with ⟨v, hv2, hvu⟩
+    rcases h2 v hv2 with ⟨v', hv', hlM, hnew, _, hren, _⟩
+    have himg : image trM e0.value = v'.uid := by rw [← hvu]; exact image_of_lookup' hlM
+    have hnsw : needsSwap m { e0 with value := image trM e0.value } = false := by
+      rw [← hns e0 he0 k hk1 v hv2 hku hvu]
+      unfold needsSwap swapNeeded
+      show (match findUid m e0.key, findUid m (image trM e0.value) with
+        | some k, some v => k.kind != v.kind && !isBaseSet k.kind && isBaseNotion v.kind
+        | _, _ => false) = _
+      rw [himg, ← hku, findUid_of_mem hcons.1.1 (h1 k hk1), findUid_of_mem hcons.1.1 hv']
+      show (k.kind != v'.kind && !isBaseSet k.kind && isBaseNotion v'.kind) = _
+      rw [hren.1]
+    have hin : ({ e0 with value := image trM e0.value } : Entry) ∈ tq := by
+      rcases hpresent e0 he0 with ⟨_, hin⟩ | ⟨hsw, _⟩
+      · exact hin
+      · rw [hnsw] at hsw; cases hsw
+    rcases hE with rfl | rfl
+    · exact ⟨(hall e0 he0).1, by rw [himg]; exact List.mem_map.2 ⟨v', hv', rfl⟩, by rw [himg]; exact hnew⟩
+    · exfalso
+      exact hvk _ he (List.mem_map.2 ⟨_, hin, rfl⟩)
+  -- a copy mentions copies only
+  have hclosed : ∀ c ∈ m, c.uid ∉ uids op1 → ∀ mm ∈ A.mentions (V.read c.definition), ∀ a ∈ m,
+      a.alias = mm → a.uid ∉ uids op1 := by
+    intro c hc hnot mm hmm a ha ham
+    rcases mergeWith_origin hw1.1 hw1.2 hw2.1 hw2.2 hm c hc with ho | ⟨c2, hc2, hl⟩
+    · exact absurd (List.mem_map.2 ⟨c, ho, rfl⟩) hnot
+    · have hE := hM.emb2 (by rw [aliases_store]; exact hw2.2)
+      have hright := hM.right (V.cst c2) (List.mem_map.2 ⟨c2, hc2, rfl⟩)
+      have hcE : V.cst c = ⟨image trM (V.cst c2).uid, Q.app r1 (V.cst c2).alias, (V.cst c2).kind,
+          Q.renD r1 (V.cst c2).defn⟩ :=
+        SchemaGen.eq_of_uid_eq hnm (List.mem_map.2 ⟨c, hc, rfl⟩) hright
+          (by show c.uid = image trM c2.uid; rw [image_of_lookup' hl])
+      have hdef : V.read c.definition = Q.renD r1 (V.cst c2).defn := congrArg SchemaGen.Cst.defn hcE
+      have hres := hE.res (Q.renC r1 (V.cst c2)) (List.mem_map.2 ⟨V.cst c2, List.mem_map.2 ⟨c2, hc2, rfl⟩, rfl⟩)
+        (by show c2.uid ∈ SchemaGen.uids (V.store op2)
+            rw [uids_store]; exact List.mem_map.2 ⟨c2, hc2, rfl⟩)
+        mm (by show mm ∈ A.mentions (Q.renD r1 (V.cst c2).defn); rw [← hdef]; exact hmm)
+      have hfa : SchemaGen.findAliasL (V.store m) mm = some a.uid := by
+        rw [← ham]
+        exact SchemaGen.findAliasL_of_mem (s := V.store m) (by rw [aliases_store]; exact hcons.1.2)
+          (c := V.cst a) (List.mem_map.2 ⟨a, ha, rfl⟩)
+      rw [hfa] at hres
+      cases hw : SchemaGen.findAliasL ((V.store op2).map (Q.renC r1)) mm with
+      | none => rw [hw] at hres; cases hres
+      | some w =>
+        rw [hw] at hres
+        simp only [Option.map_some, Option.some.injEq] at hres
+        have hwu := SchemaGen.findAliasL_uids hw
+        rw [Q.uids_ren, uids_store] at hwu
+        rcases List.mem_map.1 hwu with ⟨c3, hc3, rfl⟩
+        rcases h2 c3 hc3 with ⟨s3, _, hl3, hnew3, -⟩
+        rw [hres, image_of_lookup' hl3]
+        exact hnew3
+  obtain ⟨rkm, hrkm⟩ := SchemaGen.FullyCorrect.rank hA hnm hmc
+  obtain ⟨N, hN⟩ := exists_bound rkm (uids m)
+  refine stage_acyclic_on hA V H hVH hadm hgood hcons.1.1 hmc hR
+    (fun u => if u ∈ uids op1 then N + rkm u else rkm u) ?_
+  intro c hc hnk mm hmm a ha ham
+  have hfa : SchemaGen.findAliasL (V.store m) mm = some a.uid := by
+    rw [← ham]
+    exact SchemaGen.findAliasL_of_mem (s := V.store m) (by rw [aliases_store]; exact hcons.1.2)
+      (c := V.cst a) (List.mem_map.2 ⟨a, ha, rfl⟩)
+  have hlt : rkm a.uid < rkm c.uid := hrkm (V.cst c) (List.mem_map.2 ⟨c, hc, rfl⟩) mm hmm a.uid hfa
+  by_cases hak : a.uid ∈ tkeys tq
+  · rcases List.mem_map.1 hak with ⟨e, he, hek⟩
+    obtain ⟨hk1, hvm, hvn⟩ := hshape e he
+    have ha1 : a.uid ∈ uids op1 := by rw [← hek]; exact hk1
+    have hcin : c.uid ∈ uids op1 := by
+      by_cases hcin : c.uid ∈ uids op1
+      · exact hcin
+      · exact absurd ha1 (hclosed c hc hcin mm hmm a ha ham)
+    rcases List.mem_map.1 hvm with ⟨a0, ha0, ha0u⟩
+    refine ⟨a0, ha0, by rw [ha0u]; exact hvk e he, by rw [ha0u, ← hek]; exact (hR.pairs e he).symm, ?_⟩
+    simp only [ha0u, hvn, hcin, if_true, if_false]
+    exact Nat.lt_of_lt_of_le (hN _ hvm) (Nat.le_add_right _ _)
+  · refine ⟨a, ha, hak, rfl, ?_⟩
+    by_cases hcin : c.uid ∈ uids op1
+    · by_cases hain : a.uid ∈ uids op1
+      · simp only [hcin, hain, if_true]; omega
+      · simp only [hcin, hain, if_true, if_false]
+        exact Nat.lt_of_lt_of_le (hN _ (List.mem_map.2 ⟨a, ha, rfl⟩)) (Nat.le_add_right _ _)
+    · have hain := hclosed c hc hcin mm hmm a ha ham
+      simp only [hcin, hain, if_false]; exact hlt
+
+/-- **synth_correct_on**: `synth_correct` (the semantic clause for the WHOLE synthesis, like with like
+on the equated pairs at operand level, acyclicity automatic for unturned tables) for a `HomomorphicOn`
+analysis: the final renaming `F1` is admissible (`H.Adm F1`) and the definitions of the MERGED schema
+`m` are good. -/
+theorem synth_correct_on (hA : Lawful A) (hC : ContentOnly A) (Q : Equivariance A)
+    (H : SchemaGen.HomomorphicOn A) (V : View D) (hV : V.Compatible A Q) (hVH : V.CompatibleHomOn H)
+    {g : Names} {freshs : List Nat} {semOk : Bool} {op1 op2 res : Schema} {eqs : List Entry} {tr1 tr2 : Tr}
+    (hw1 : WF op1) (hw2 : WF op2) (hk : (tkeys eqs).Nodup)
+    (h : synth g freshs semOk op1 op2 eqs = .ok res tr1 tr2)
+    (hc1 : FullyCorrect A (V.store op1)) (hc2 : FullyCorrect A (V.store op2)) :
+    ∃ m trM m1 F1, mergeWith g freshs op1 op2 = some (m, trM) ∧ IsMergeRenaming op2 m trM m1 ∧
+      IsSynthRenaming op1 op2 res tr1 tr2 F1 (fun x => F1 (m1 x)) ∧ (∀ x, x ∉ aliases m → F1 x = x) ∧
+      ∀ r1 : Q.Ren, ActsLike V Q r1 m1 op2 → H.Adm F1 → (∀ c ∈ m, H.GoodD (V.read c.definition)) →
+        (∀ e0 ∈ eqs, H.homI F1 (entryOf A (V.store op1) e0.key) =
+          H.homI F1 (Q.renI r1 (entryOf A (V.store op2) e0.value))) →
+        (AcyclicSchema V A res ∨ ∀ e0 ∈ eqs, ∀ k ∈ op1, ∀ v ∈ op2, k.uid = e0.key → v.uid = e0.value →
+          swapNeeded k v = false) →
+        FullyCorrect A (V.store res) ∧
+        (∀ c ∈ op1, ∀ s ∈ res, lookup tr1 c.uid = some s.uid →
+          entryOf A (V.store res) s.uid = H.homI F1 (entryOf A (V.store op1) c.uid)) ∧
+        (∀ c ∈ op2, ∀ s ∈ res, lookup tr2 c.uid = some s.uid →
+          entryOf A (V.store res) s.uid = H.homI F1 (Q.renI r1 (entryOf A (V.store op2) c.uid))) := by
+  rcases synth_core hw1 hw2 hk h with
+    ⟨m, trM, trE, tq, R, m1, hm, hR, hm1, h1, h2, hall, hentry, hpresent, _, hvk⟩
+  have hcons := merge_consistent hw1 hw2 hm
+  refine ⟨m, trM, m1, R, hm, hm1, synth_core_renaming hw1 hw2 hm hR hm1 h1 h2, hR.off, ?_⟩
+  intro r1 hr1 hadm hgood hlike hac'
+  have hac : AcyclicSchema V A res := by
+    rcases hac' with hac | hns
+    · exact hac
+    · exact synth_acyclic_aux_on hA hC Q H V hV hVH hadm hgood hw1 hw2 hm hR hm1 (fun c hc => (h1 c hc).1) h2
+        hall hentry hpresent hvk hc1 hc2 r1 hr1 hns
+  have hcap : NoCapture V A op1 op2 m := noCapture_of_correct_on hA H V m hw1.1 hw2.1 hc1 hc2
+  obtain ⟨e1, e2⟩ := merge_analysis hA hC Q V hV hw1 hw2 hm hm1 r1 hr1 hcap
+  have hmc := merge_correct hA hC Q V hV hw1 hw2 hm hm1 r1 hr1 hcap hc1 hc2
+  -- the two sides of an equation of the synthesis, in the merged schema
+  have hside : ∀ e0 ∈ eqs, e0.key ∈ uids m ∧ image trM e0.value ∈ uids m ∧
+      H.homI R (entryOf A (V.store m) e0.key) = H.homI R (entryOf A (V.store m) (image trM e0.value)) := by
+    intro e0 he0
+    rcases List.mem_map.1 (hall e0 he0).1 with ⟨k, hk1, hku⟩
+    rcases List.mem_map.1 (hall e0 he0).2 with ⟨v, hv2, hvu⟩
+    rcases h2 v hv2 with ⟨v', hv', hlM, -⟩
+    have himg : image trM e0.value = v'.uid := by rw [← hvu]; exact image_of_lookup' hlM
+    refine ⟨by rw [← hku]; exact List.mem_map.2 ⟨k, (h1 k hk1).1, rfl⟩,
+      by rw [himg]; exact List.mem_map.2 ⟨v', hv', rfl⟩, ?_⟩
+    rw [himg, e2 v hv2 v' hv' hlM, ← hku, e1 k hk1, hku, hvu]
+    exact hlike e0 he0
+  have hvals : ∀ e ∈ tq, e.value ∈ uids m ∧ e.value ∉ tkeys tq := by
+    intro e he
+    refine ⟨?_, hvk e he⟩
+    rcases hentry e he with ⟨e0, he0, rfl | rfl⟩
+    · exact (hside e0 he0).2.1
+    · exact (hside e0 he0).1
+  have hpl : PairsLikeOn V A H m tq R := by
+    intro e he
+    rcases hentry e he with ⟨e0, he0, rfl | rfl⟩
+    · exact (hside e0 he0).2.2
+    · exact (hside e0 he0).2.2.symm
+  obtain ⟨hent, hfc⟩ := stage_correct_on hA hC V H hVH hadm hgood hcons.1.1 hmc hR hvals hpl hac
+  refine ⟨hfc, fun c hc s _ hl => ?_, fun c2 hc2 s _ hl => ?_⟩
+  · have hs : s.uid = image trE c.uid := Option.some.inj (hl.symm.trans (h1 c hc).2)
+    rw [hs, hent c (h1 c hc).1, e1 c hc]
+  · rcases h2 c2 hc2 with ⟨s', hs', hlM, _, _, _, hl2⟩
+    have hs : s.uid = image trE s'.uid := Option.some.inj (hl.symm.trans hl2)
+    rw [hs, hent s' hs', e2 c2 hc2 s' hs' hlM]
+
+/-- non-vacuity of `synth_correct_on`: the fragment on `opA`, `opC`, the table `X1 = X1` -/
+example : FullyCorrect fragA (fragView.store resAC) ∧
+    entryOf fragA (fragView.store resAC) 2 = { status := .verified, ty := some "X1" } := by
+  obtain ⟨m, trM, m1, F1, hm, hm1, hF, hoff, hmain⟩ := synth_correct_on fragA_lawful fragA_contentOnly
+    fragEquivariance fragHom.toOn fragView fragView_compatible fragView_compatibleHom.toOn (g := realNames)
+    (freshs := [77, 78]) (semOk := true) (op1 := opA) (op2 := opC) (eqs := eqsAC) (res := resAC)
+    (tr1 := [(1, 77), (2, 2)]) (tr2 := [(1, 77), (2, 2)]) (by unfold WF; decide) (by unfold WF; decide)
+    (by decide) (by decide) (by decide) (by decide)
+  have e : some (m, trM) = some mergedAC := by rw [← hm]; decide
+  simp only [Option.some.injEq] at e
+  obtain ⟨rfl, rfl⟩ : m = mergedAC.1 ∧ trM = mergedAC.2 := by rw [← e]; exact ⟨rfl, rfl⟩
+  have a1 : m1 "X1" = "X2" := hm1.1 opC[0] (by decide) mergedAC.1[1] (by decide) (by decide)
+  have a2 : m1 "D1" = "D2" := hm1.1 opC[1] (by decide) mergedAC.1[3] (by decide) (by decide)
+  have hr1 : ActsLike fragView fragEquivariance bijAB m1 opC := by
+    refine ⟨fun n hn => ?_, fun _ _ => trivial⟩
+    have : n = "X1" ∨ n = "D1" ∨ n = "X1" := by
+      simp only [tokNames, opC, aliases, mentionNames] at hn
+      simpa using hn
+    rcases this with rfl | rfl | rfl
+    · exact a1.symm ▸ (by decide)
+    · exact a2.symm ▸ (by decide)
+    · exact a1.symm ▸ (by decide)
+  have f1 : F1 "X1" = "X1" := hF.alias1 opA[0] (by decide) resAC[0] (by decide) (by decide)
+  have f2 : F1 "X2" = "X1" := by
+    have := hF.alias2 opC[0] (by decide) resAC[0] (by decide) (by decide)
+    rw [show opC[0].alias = "X1" from rfl, a1] at this
+    exact this
+  have hlike : ∀ e0 ∈ eqsAC, fragHom.toOn.homI F1 (entryOf fragA (fragView.store opA) e0.key) =
+      fragHom.toOn.homI F1 (fragEquivariance.renI bijAB (entryOf fragA (fragView.store opC) e0.value)) := by
+    intro e0 he0
+    have : e0 = { key := 1, value := 1 } := by simpa [eqsAC] using he0
+    subst this
+    have e1 : entryOf fragA (fragView.store opA) 1 = { status := .verified, ty := some "X1" } := by decide
+    have e2 : fragEquivariance.renI bijAB (entryOf fragA (fragView.store opC) 1) =
+        { status := .verified, ty := some "X2" } := by decide
+    rw [e1, e2]
+    simp only [SchemaGen.Homomorphic.toOn_homI, fragHom, SchemaGen.renInfo, Option.map_some, f1, f2]
+  obtain ⟨hfc, hent1, _⟩ := hmain bijAB hr1 (fragHom.toOn_adm _) (fun c _ => fragHom.toOn_good _) hlike
+    (Or.inr (by decide))
+  refine ⟨hfc, ?_⟩
+  have := hent1 opA[1] (by decide) resAC[1] (by decide) (by decide)
+  have e3 : entryOf fragA (fragView.store opA) (opA[1]).uid = { status := .verified, ty := some "X1" } := by decide
+  rw [e3] at this
+  rw [show (resAC[1]).uid = 2 from rfl] at this
+  rw [this]
+  simp only [SchemaGen.Homomorphic.toOn_homI, fragHom, SchemaGen.renInfo, Option.map_some, f1]
+
+end CCVerif.SynthCorrect
+/-! ## END relativised -/
+
+/-! ## the semantic clause for the REAL type-checker model (prover-C12h)
+
+`checkerHomOn traits : HomomorphicOn (checkerR fun _ => traits)` (Lemmas/CheckerHomAnalysis.lean, from
+`check_hom`, Lemmas/CheckerHom.lean): the checker model `Model/Checker.lean` is stable under an
+IDENTIFICATION of like names — if `check Γ e` succeeds with type `t`, the expression with names identified,
+in a context that shows the identified entries, succeeds with `t` with the base names identified — for every
+rule of the visitor EXCEPT templated function calls (NT_FUNC_CALL), on grammar-shaped definitions
+(`GoodDC`), for identifications that fix `Z`, `R0`, the radicals and respect the traits (`AdmC`). Hence the
+relativised semantic theorems apply to the checker model, through any view `V` of token sequences as
+parsed definitions whose reader commutes with renaming. -/
+namespace CCVerif.SynthCorrect
+open CCVerif.Translation CCVerif.Dedup CCVerif.Merge CCVerif.Equate CCVerif.Synth
+open CCVerif.SchemaGen (entryOf FullyCorrect checkerR checkerEquivariance checkerHomOn checkerR_lawful
+  checkerR_contentOnly CDef GoodDC)
+open CCVerif.Checker (AdmC)
+open CCVerif.Types (TraitEnv)
+
+/-- **dedup_correct_checker**: `DeleteDuplicates` on a schema that is fully correct for the checker model
+keeps it fully correct, typifications kept up to the identification `finalAlias` -/
+theorem dedup_correct_checker (traits : TraitEnv) (V : View CDef)
+    (hV : V.CompatibleHomOn (checkerHomOn traits)) {l r : Schema} {tr : Tr} (hw : WF l)
+    (h : dedup l = some (r, tr)) (hadm : AdmC traits (finalAlias l r tr))
+    (hgood : ∀ c ∈ l, GoodDC (V.read c.definition))
+    (hfc : FullyCorrect (checkerR fun _ => traits) (V.store l)) :
+    (∀ c ∈ l, entryOf (checkerR fun _ => traits) (V.store r) (image tr c.uid) =
+      (checkerHomOn traits).homI (finalAlias l r tr) (entryOf (checkerR fun _ => traits) (V.store l) c.uid)) ∧
+    FullyCorrect (checkerR fun _ => traits) (V.store r) :=
+  dedup_correct_on (checkerR_lawful _) (checkerR_contentOnly traits) (checkerHomOn traits) V hV hw h hadm hgood hfc
+
+/-- **equate_correct_checker**: an accepted table on a schema that is fully correct for the checker model;
+like with like + acyclic ⇒ fully correct result, entries = old entries with the identification substituted -/
+theorem equate_correct_checker (traits : TraitEnv) (V : View CDef)
+    (hV : V.CompatibleHomOn (checkerHomOn traits)) {semOk : Bool} {l r : Schema} {eqs : List Entry} {tr : Tr}
+    (hw : WF l) (hk : (tkeys eqs).Nodup) (h : equate semOk l eqs = some (r, tr))
+    (hgood : ∀ c ∈ l, GoodDC (V.read c.definition))
+    (hfc : FullyCorrect (checkerR fun _ => traits) (V.store l)) :
+    ∃ Q, StageExact l r tr eqs Q ∧ ∀ Q', StageExact l r tr eqs Q' → AdmC traits Q' →
+      LikeWithLikeOn V (checkerR fun _ => traits) (checkerHomOn traits) l tr Q' →
+      AcyclicSchema V (checkerR fun _ => traits) r →
+      (∀ c ∈ l, entryOf (checkerR fun _ => traits) (V.store r) (image tr c.uid) =
+        (checkerHomOn traits).homI Q' (entryOf (checkerR fun _ => traits) (V.store l) c.uid)) ∧
+      FullyCorrect (checkerR fun _ => traits) (V.store r) :=
+  equate_correct_on (checkerR_lawful _) (checkerR_contentOnly traits) (checkerHomOn traits) V hV hw hk h hgood hfc
+
+/-- **synth_correct_checker**: the semantic clause of C12 for the whole `BinarySynthes` and the checker
+model: operands fully correct for the checker, table like with like at operand level (entries of key and
+value equal after the identification `F1`), `F1` admissible, the merged schema grammar-shaped without
+templated calls ⇒ the result is fully correct for the checker and every image has the operand's entry
+with the final renaming / identification applied -/
+theorem synth_correct_checker (traits : TraitEnv) (V : View CDef)
+    (hV : V.Compatible (checkerR fun _ => traits) (checkerEquivariance fun _ => traits))
+    (hVH : V.CompatibleHomOn (checkerHomOn traits))
+    {g : Names} {freshs : List Nat} {semOk : Bool} {op1 op2 res : Schema} {eqs : List Entry} {tr1 tr2 : Tr}
+    (hw1 : WF op1) (hw2 : WF op2) (hk : (tkeys eqs).Nodup)
+    (h : synth g freshs semOk op1 op2 eqs = .ok res tr1 tr2)
+    (hc1 : FullyCorrect (checkerR fun _ => traits) (V.store op1))
+    (hc2 : FullyCorrect (checkerR fun _ => traits) (V.store op2)) :
+    ∃ m trM m1 F1, mergeWith g freshs op1 op2 = some (m, trM) ∧ IsMergeRenaming op2 m trM m1 ∧
+      IsSynthRenaming op1 op2 res tr1 tr2 F1 (fun x => F1 (m1 x)) ∧ (∀ x, x ∉ aliases m → F1 x = x) ∧
+      ∀ r1 : (checkerEquivariance fun _ => traits).Ren,
+        ActsLike V (checkerEquivariance fun _ => traits) r1 m1 op2 → AdmC traits F1 →
+        (∀ c ∈ m, GoodDC (V.read c.definition)) →
+        (∀ e0 ∈ eqs, (checkerHomOn traits).homI F1 (entryOf (checkerR fun _ => traits) (V.store op1) e0.key) =
+          (checkerHomOn traits).homI F1 ((checkerEquivariance fun _ => traits).renI r1
+            (entryOf (checkerR fun _ => traits) (V.store op2) e0.value))) →
+        (AcyclicSchema V (checkerR fun _ => traits) res ∨ ∀ e0 ∈ eqs, ∀ k ∈ op1, ∀ v ∈ op2,
+          k.uid = e0.key → v.uid = e0.value → swapNeeded k v = false) →
+        FullyCorrect (checkerR fun _ => traits) (V.store res) ∧
+        (∀ c ∈ op1, ∀ s ∈ res, lookup tr1 c.uid = some s.uid →
+          entryOf (checkerR fun _ => traits) (V.store res) s.uid =
+            (checkerHomOn traits).homI F1 (entryOf (checkerR fun _ => traits) (V.store op1) c.uid)) ∧
+        (∀ c ∈ op2, ∀ s ∈ res, lookup tr2 c.uid = some s.uid →
+          entryOf (checkerR fun _ => traits) (V.store res) s.uid =
+            (checkerHomOn traits).homI F1 ((checkerEquivariance fun _ => traits).renI r1
+              (entryOf (checkerR fun _ => traits) (V.store op2) c.uid))) :=
+  synth_correct_on (checkerR_lawful _) (checkerR_contentOnly traits) (checkerEquivariance fun _ => traits)
+    (checkerHomOn traits) V hV hVH hw1 hw2 hk h hc1 hc2
+
+private theorem finalAlias_off' (l0 l : Schema) (tr : Tr) (x : String) (hx : x ∉ aliases l0) :
+    finalAlias l0 l tr x = x := by
+  unfold finalAlias
+  have : l0.find? (fun c0 => c0.alias == x) = none := by
+    rw [List.find?_eq_none]
+    intro c hc hcx
+    exact hx (List.mem_map.2 ⟨c, hc, by simpa using hcx⟩)
+  rw [this]
+
+/-- non-vacuity of `dedup_correct_checker`, applied: `dupL` (`X1`, `D1 D2 D3 := X1 ∪ X1`, `D4 := D1 ∪ D3`) read
+through `checkerView` (Lemmas/CheckerHomAnalysis.lean) is fully correct for the REAL checker model, its
+definitions are grammar-shaped, the identification `D1, D2 ↦ D3` is admissible — so the result `dupR`
+(`D4 := D3 ∪ D3`) is fully correct for the checker model -/
+example : FullyCorrect (checkerR fun _ => []) (checkerView.store dupR.1) :=
+  (dedup_correct_checker [] checkerView (checkerView_compatibleHomOn []) (l := dupL)
+    (by unfold WF; decide) (by decide : dedup dupL = some dupR)
+    (Checker.admC_of_finite [] _ (aliases dupL) (finalAlias_off' _ _ _) (by decide +kernel))
+    (by
+      intro c hc
+      simp only [dupL, List.mem_cons, List.mem_nil_iff, or_false] at hc
+      rcases hc with rfl | rfl | rfl | rfl | rfl <;>
+        exact ⟨by decide +kernel, fun body hb => by first | (cases hb; done) | (cases hb; decide +kernel)⟩)
+    (by decide +kernel)).2
+
+/-- non-vacuity of the hypotheses shared by `equate_correct_checker` / `synth_correct_checker`: the operands
+of the example (`X1`, `D1 := X1 ∪ X1`) are fully correct for the checker model through a view that is
+compatible with the checker's equivariance and with its stability under identification -/
+example : FullyCorrect (checkerR fun _ => []) (checkerView.store opA) ∧
+    FullyCorrect (checkerR fun _ => []) (checkerView.store opC) ∧
+    checkerView.Compatible (checkerR fun _ => []) (checkerEquivariance fun _ => []) ∧
+    checkerView.CompatibleHomOn (checkerHomOn []) ∧
+    (∀ c ∈ mergedAC.1, GoodDC (checkerView.read c.definition)) :=
+  ⟨by decide +kernel, by decide +kernel, checkerView_compatible [], checkerView_compatibleHomOn [], by
+    intro c hc
+    simp only [mergedAC, List.mem_cons, List.mem_nil_iff, or_false] at hc
+    rcases hc with rfl | rfl | rfl | rfl <;>
+      exact ⟨by decide +kernel, fun body hb => by first | (cases hb; done) | (cases hb; decide +kernel)⟩⟩
 
 end CCVerif.SynthCorrect
